@@ -412,14 +412,14 @@ def gen_cases(tier, seed):
     rng = random.Random(f"c09-{seed}")
     _, kinds = field_rig.yaml_text()
     cases = []
-    reps = 3 if tier == "quick" else 30
+    reps = 3 if tier == "quick" else 200
     for cname, table in kinds.items():
         paths = list(walk(table))
         for r in range(reps):
             # split big classes so shards stay balanced
             for i in range(0, len(paths), 6):
                 cases.append({"mode": "fields", "cls": cname, "lo": i, "hi": i + 6, "seed": rng.getrandbits(32)})
-    nhist = 200 if tier == "quick" else 5000
+    nhist = 200 if tier == "quick" else 30000
     for i in range(nhist):
         cases.append({"mode": "history", "cls": rng.choice(list(kinds)), "seed": rng.getrandbits(32), "len": 300})
     shapes = []
